@@ -67,6 +67,16 @@ def ofLe : List UInt8 → Nat
 /-- `DataHeader::encode`: `seq.to_le_bytes()` -/
 def encSeq (seq : Nat) : List UInt8 := leBytes seq dataHeaderSize
 
+/-- `AuthData::to_bytes`: a zeroed `PACKED_SIZE` buffer, the version as `u32` little-endian at
+`[adVersionOff, adVersionEnd)`, the label id copied to `[adLabelOff..]` (`copy_from_slice` panics
+on a length mismatch: `none`) -/
+def adBytes (version : Nat) (label : List UInt8) : Option (List UInt8) :=
+  if label.length ≠ adSize - adLabelOff then none
+  else
+    let b := zeros adSize
+    let b1 := b.take adVersionOff ++ leBytes version (adVersionEnd - adVersionOff) ++ b.drop adVersionEnd
+    some (b1.take adLabelOff ++ label)
+
 /-! ## ideal AEAD -/
 
 structure SealRec where
